@@ -6,7 +6,10 @@ ODD = ["foo @ https://h/p;", "foo @ https://h/#", "foo @ https://h/p# ; os_name 
        "foo ; python_version < '0'", "foo ; os_name == 'a' and os_name == 'b'", "foo ; os.name == 'nt'", "foo>=1 ; sys.platform in 'linux' or python_implementation == 'CPython'",
        "foo ; extra == 'a' and extra != 'a'", "foo ; python_version in '3.8a1 3.9'", "foo @ git+https://h/p@v1#egg=x ; 'it\"s' in platform_version", "foo ; platform_version == \"it's\"",
        "foo ; python_full_version ~= '3.8.0'", "foo==1.0,==1.0", "foo<2,>=1,<2", "foo>=1.0,>=1.0.0,>=1", "foo @ file:///a/b%20c", "foo @ https://h/%5Bx%5D", "foo @ https://h/[x]",
-       "foo @ https://h/p?x=;y", "Foo.BAR_baz[A_b,a.B]", "foo @ https://h/p ;extra=='x'", "foo @ HTTPS://H/P", "foo @ https://h:443/p", "foo @ https://h/a/../b"]
+       "foo @ https://h/p?x=;y", "Foo.BAR_baz[A_b,a.B]", "foo @ https://h/p ;extra=='x'", "foo @ HTTPS://H/P", "foo @ https://h:443/p", "foo @ https://h/a/../b",
+       "pkg @ ./repo.zip#subdirectory=python/", "pkg[cli] @ /opt/src/repo.zip#subdirectory=a/../python ; os_name == 'posix'", "pkg @ file:///opt/src/repo.zip#subdirectory=python/",
+       "pkg @ ../up/repo.zip#egg=x&subdirectory=./a/", "pkg @ /opt/a/./b/../c.whl#frag/../x", "numpy ; platform_version == \"it's\"", "numpy [extra1] (>=1.0) ; os_name != 'say \"hi\"'",
+       "numpy;\"it's\"==platform_version", "numpy ; os_name not\tin 'nt posix'", "numpy ; 'win' not\t in sys_platform and extra == 'a'"]
 UODD = ["https://h/p", "https://h/p[a,b]", "https://h/p[a] ; os_name == 'a'", "./p", "/a/b.whl[x]", "file:///a/b", "../up/x ; python_version < '3'", "/a b/c", "https://h/p#frag", "/a/b;c",
         "/a/${HOME}/b", "https://h/p;[a]", "https://h/a%20b", "/a/%41", "git+https://h/p@v1#egg=x[a]"]
 
